@@ -22,7 +22,15 @@ and optimistic=False sessions) run on a FILE-backed SQLite database whose DB-API
     The state afterwards must be S[j], j = number of commit() calls that reached SQLite, i.e. nothing of a session
     whose commit did not happen is in the file; a following pony session must succeed, must read exactly that
     state, and its own write must be added to it.
- 4. reconnect sub-mode: the same with a "connection lost" error before every call and a provider whose
+ 4. interrupt / abort modes: the same oracle when the session is cut short by SystemExit / KeyboardInterrupt /
+    GeneratorExit (BaseExceptions that are not Exceptions: the process is being told to stop), raised inside every
+    DB-API call and at every operation boundary of every session body; sessions come as `with db_session` blocks and as
+    @db_session-decorated functions.
+ 5. boundary invariant, checked in every in-process run including the clean one: right after a data-modifying
+    statement returned, sqlite3's connection.in_transaction must be True (pony binds with isolation_level=None, so a DML
+    statement outside BEGIN..COMMIT is committed on the spot).  Programs push single objects with obj.flush() (created,
+    updated and deleted objects), also as the very first write of a session.
+ 6. reconnect sub-mode: the same with a "connection lost" error before every call and a provider whose
     should_reconnect() answers True (as the PostgreSQL/MySQL/Oracle providers do): pony's shared reconnect logic runs;
     the oracle is unchanged.
 """
@@ -44,7 +52,7 @@ META = {
                   'simulation (file and journal copied at the crash instant, later DB-API calls cut off) is trusted to '
                   'equal process death; it is cross-checked against real os._exit(137) children on a subset of programs. '
                   'Real crash children are forked from a driver process that has bound the Database (no connection open).',
-    'rule': 'case = (program, crash|realcrash|error, boundary call index k, before|after); k runs over every boundary call of the '
+    'rule': 'case = (program, crash|realcrash|error|interrupt|abort|reconnect, boundary call index k or operation boundary, before|after); k runs over every boundary call of the '
             'clean run; a case is non-trivial if its fault point was reached; programs differ in session count, modes, '
             'operation sequence and raw-statement placement',
     'assumptions': [
@@ -189,14 +197,45 @@ def gen_program(rng, serial):
             return ['insert', 'Audit', {'msg': 'seg%d-%d' % (serial, seg[0]), 'n': seg[0]}]
         return ['raw', 'INSERT INTO Audit (msg, n) VALUES ($m, $n)', {'m': 'seg%d-%d' % (serial, seg[0]), 'n': seg[0]}]
 
+    def probe_op(orm_touched):
+        """a write on ONE object that is pushed to the database by that object's own flush() -- created, updated or deleted"""
+        kind = rng.choice(('del', 'del', 'set', 'new'))
+        if kind == 'del':
+            cands = [('Pet', k) for k in sorted(pets)] + ([('Tag', t) for t in sorted(tags)] if len(tags) > 1 else []) \
+                    + ([('Person', p) for p in sorted(persons)] if len(persons) > 2 else [])
+            if cands:
+                cls, i = rng.choice(cands)
+                if cls == 'Pet':
+                    orm_touched.add(pets[i]); persons[pets[i]]['pets'].discard(i); del pets[i]
+                elif cls == 'Tag':
+                    tags.discard(i)
+                    for p in persons: persons[p]['tags'].discard(i)
+                else:
+                    orm_touched.add(i)
+                    for k in list(persons[i]['pets']): pets.pop(k, None)
+                    del persons[i]
+                return ['del', cls, i, 'F']
+            kind = 'set'
+        if kind == 'set':
+            p = rng.choice(sorted(persons)); orm_touched.add(p)
+            attr = rng.choice(('age', 'name', 'note'))
+            val = rng.randint(100, 199) if attr == 'age' else '%s%d' % (attr, rng.randint(1000, 1999))
+            return ['set', 'Person', p, attr, val, 'F']
+        p = fresh(); persons[p] = {'tags': set(), 'pets': set()}; orm_touched.add(p)
+        return ['new_person', p, 'p%d' % p, rng.randint(1, 90), 'F']
+
     prog = []
     nsess = rng.choice((1, 1, 2, 2, 3))
     for si in range(nsess):
         mode = rng.choice(('optimistic', 'optimistic', 'optimistic', 'immediate', 'serializable', 'pessimistic'))
+        form = rng.choice(('with', 'with', 'decorator'))
         ops = []
         orm_touched, raw_touched = set(), set()
         nops = rng.randint(2, 7)
         segments = [[]]
+        # the session's very first write may be a per-object flush (obj.flush() does not go through cache.flush())
+        first_probe = rng.random() < 0.6
+        if first_probe: segments[0].append(probe_op(orm_touched))
         for oi in range(nops):
             live = [p for p in persons if p not in raw_touched]
             r = rng.random()
@@ -257,13 +296,16 @@ def gen_program(rng, serial):
             elif r < 0.98 and len(segments[-1]) > 0 and oi < nops - 1:
                 segments[-1].append(['commit']); segments.append([])
                 continue
-            if op is not None: segments[-1].append(op)
-        for sg in segments:
+            if op is not None:
+                if op[0] in ('new_person', 'new_pet', 'set', 'del') and rng.random() < 0.3: op.append('F')
+                segments[-1].append(op)
+        for gi, sg in enumerate(segments):
             body = [o for o in sg if o[0] != 'commit']
-            body.insert(rng.randint(0, len(body)), marker_op())
+            lo = 1 if (gi == 0 and first_probe) else 0
+            body.insert(rng.randint(lo, len(body)), marker_op())
             ops.extend(body)
             if sg and sg[-1][0] == 'commit': ops.append(['commit'])
-        prog.append({'mode': mode, 'ops': ops})
+        prog.append({'mode': mode, 'form': form, 'ops': ops})
     return prog
 
 
@@ -272,13 +314,20 @@ def gen_program(rng, serial):
 # ----------------------------------------------------------------------------------------------------------
 
 def apply_op(db, E, op):
+    """A trailing 'F' on an object operation means: push exactly this object with obj.flush() right away."""
     from pony.orm import flush, commit, select
     kind = op[0]
-    if kind == 'new_person': E['Person'](id=op[1], name=op[2], age=op[3])
-    elif kind == 'new_tag': E['Tag'](id=op[1], label=op[2])
-    elif kind == 'new_pet': E['Pet'](id=op[1], name=op[2], owner=E['Person'][op[3]])
-    elif kind == 'set': setattr(E[op[1]][op[2]], op[3], op[4])
-    elif kind == 'del': E[op[1]][op[2]].delete()
+    own_flush = op[-1] == 'F' and kind in ('new_person', 'new_tag', 'new_pet', 'set', 'del')
+    o = None
+    if kind == 'new_person': o = E['Person'](id=op[1], name=op[2], age=op[3])
+    elif kind == 'new_tag': o = E['Tag'](id=op[1], label=op[2])
+    elif kind == 'new_pet': o = E['Pet'](id=op[1], name=op[2], owner=E['Person'][op[3]])
+    elif kind == 'set':
+        o = E[op[1]][op[2]]
+        setattr(o, op[3], op[4])
+    elif kind == 'del':
+        o = E[op[1]][op[2]]
+        o.delete()
     elif kind == 'link': E['Person'][op[1]].tags.add([E['Tag'][t] for t in op[2]])
     elif kind == 'unlink': E['Person'][op[1]].tags.remove([E['Tag'][t] for t in op[2]])
     elif kind == 'raw': db.execute(op[1], {}, dict(op[2]))
@@ -289,12 +338,30 @@ def apply_op(db, E, op):
         p = E['Person'][op[2]]
         (p.name, p.age, len(p.tags), [x.name for x in p.pets])
     else: raise ValueError(op)
+    if own_flush: o.flush()
 
 
-def run_session(db, E, sess):
+ABORTS = {'SystemExit': SystemExit, 'KeyboardInterrupt': KeyboardInterrupt, 'GeneratorExit': GeneratorExit}
+
+
+def run_session(db, E, sess, abort_at=None, abort_exc=None):
+    """form 'with': `with db_session(...)`; form 'decorator': a function decorated with @db_session(...).
+    abort_at = i: the body is terminated by the BaseException `abort_exc` right before its i-th operation
+    (i == len(ops): after the last one) -- the process is being told to stop (SystemExit from a signal handler, Ctrl-C)."""
     from pony.orm import db_session
-    with db_session(**MODES[sess['mode']]):
-        for op in sess['ops']: apply_op(db, E, op)
+    kw = MODES[sess['mode']]
+    ops = sess['ops']
+    def body():
+        for i, op in enumerate(ops):
+            if abort_at == i: raise ABORTS[abort_exc]('injected abort before operation %d' % i)
+            apply_op(db, E, op)
+        if abort_at == len(ops): raise ABORTS[abort_exc]('injected abort after the last operation')
+    if sess.get('form') == 'decorator':
+        wrapped = db_session(**kw)(body) if kw else db_session(body)
+        wrapped()
+    else:
+        with db_session(**kw):
+            body()
 
 
 def run_program(db, E, prog):
@@ -333,10 +400,14 @@ def clean_run(template, workfile, prog):
     rec = HookRecorder()
     restore(template, workfile)
     db, E = open_db(workfile, rec)
+    from vlib.faults import write_outside_transaction
     states = [dump(workfile)]
+    autocommitted = []
     rec.clear()
     def hook(ev):
         if ev['kind'] == 'commit' and ev['phase'] == 'ret': states.append(dump(workfile))
+        w = write_outside_transaction(rec, ev)
+        if w: autocommitted.append(w)
     rec.after_hook = hook
     evs = None
     try:
@@ -355,6 +426,9 @@ def clean_run(template, workfile, prog):
             'commit_ret_idx': [i + 1 for i, e in enumerate(rets) if e['kind'] == 'commit'],
             'kinds': sorted(set(e['kind'] for e in calls)),
             'n_exc': sum(1 for e in evs if e['phase'] == 'exc'),
+            'n_dml': sum(1 for e in rets if e['kind'] in ('execute', 'executemany')
+                         and (e.get('sql') or '').lstrip().split(' ', 1)[0].upper() in ('INSERT', 'UPDATE', 'DELETE')),
+            'writes_outside_transaction': autocommitted,
             'final': dump(workfile)}
     return info
 
@@ -430,37 +504,49 @@ def reconnect_facts(evs, fault_seq):
             'new_connections': newconn, 'writes_resumed_on_new_connection': resumed}
 
 
-def error_case(env, prog, info, k, phase, exc=None):
-    """One in-process error plan.  -> result dict"""
-    from vlib.faults import SeqFault
+def error_case(env, prog, info, k, phase, exc=None, abort=None):
+    """One in-process plan.  Either an exception of class `exc` (default: an sqlite3.OperationalError) raised at the
+    k-th boundary event of `phase`, or -- abort=(session index, operation index, BaseException name) -- the body of
+    that session terminated by a BaseException at that operation boundary.  -> result dict"""
+    from vlib.faults import SeqFault, write_outside_transaction
     rec, db, E = env['rec'], env['db'], env['E']
     res = {'k': k, 'phase': phase, 'problems': []}
     try: db.disconnect()
     except Exception: pass
     restore(env['template'], env['workfile'])
     rec.clear(); del rec.faults[:]
-    f = SeqFault(k, phase=phase, exc=exc)
-    rec.faults.append(f)
+    f = None
+    if abort is None:
+        f = SeqFault(k, phase=phase, exc=exc)
+        rec.faults.append(f)
+    autocommitted = []
+    def hook(ev):
+        w = write_outside_transaction(rec, ev)
+        if w: autocommitted.append(w)
+    rec.after_hook = hook
     failed_at = None
     err = None
     try:
         for si, sess in enumerate(prog):
             try:
-                run_session(db, E, sess)
+                if abort is not None and abort[0] == si: run_session(db, E, sess, abort[1], abort[2])
+                else: run_session(db, E, sess)
             except BaseException as e:
                 failed_at, err = si, repr(e)[:200]
                 break
     finally:
         del rec.faults[:]
-    res['fired'] = bool(f.fired)
+    res['fired'] = bool(f.fired) if f is not None else (failed_at == abort[0] and abort[2] in (err or ''))
     res['failed_at'] = failed_at
     res['error'] = err
-    if not f.fired: return res
-    res['fault_event'] = f.fired_event
+    if not res['fired']:
+        rec.after_hook = None
+        return res
+    res['fault_event'] = f.fired_event if f is not None else {'kind': 'abort', 'session': abort[0], 'before_op': abort[1], 'exc': abort[2]}
     evs = list(rec.events)
     j = sum(1 for e in evs if e['kind'] == 'commit' and e['phase'] == 'ret')
     res['commits_reached_sqlite'] = j
-    if exc is not None: res['reconnect'] = reconnect_facts(evs, f.fired_seq)
+    if exc is ConnectionLost: res['reconnect'] = reconnect_facts(evs, f.fired_seq)
     st = dump(env['workfile'])
     states = info['states']
     if failed_at is None and j == len(states) - 1 and st == states[-1]:
@@ -481,7 +567,12 @@ def error_case(env, prog, info, k, phase, exc=None):
         seen = followup(db, E, mid)
     except BaseException as e:
         res['problems'].append({'problem': 'following_session_failed', 'error': repr(e)[:300]})
-        return res
+        seen = None
+    finally:
+        rec.after_hook = None
+        if autocommitted:
+            res['problems'].append({'problem': 'write_outside_transaction', 'n': len(autocommitted), 'statements': autocommitted[:3]})
+    if seen is None: return res
     if json.loads(json.dumps(seen)) != json.loads(json.dumps(before)):
         res['problems'].append({'problem': 'following_session_saw_other_state',
                                 'file': str(before)[:300], 'seen': str(seen)[:300]})
@@ -709,8 +800,12 @@ def freeze_case(env, prog, k, phase, point_dir):
         with open(os.path.join(point_dir, 'acks'), 'w') as f:
             f.write(''.join('commit %d returned\n' % (i + 1) for i in range(acks[0])))
     fault = make_freeze_fault(k, phase, snapshot)
+    from vlib.faults import write_outside_transaction
+    autocommitted = []
     def hook(ev):
         if ev['kind'] == 'commit' and ev['phase'] == 'ret': acks[0] += 1
+        w = write_outside_transaction(rec, ev)
+        if w: autocommitted.append(w)
     out = {}
     def body():
         rec.clear(); del rec.faults[:]
@@ -754,7 +849,8 @@ def freeze_case(env, prog, k, phase, point_dir):
         gc.collect()
     else:
         return {'k': k, 'phase': phase, 'dir': point_dir, 'status': 'watchdog'}
-    return {'k': k, 'phase': phase, 'dir': point_dir, 'status': out.get('status', 3), 'error': out.get('error')}
+    return {'k': k, 'phase': phase, 'dir': point_dir, 'status': out.get('status', 3), 'error': out.get('error'),
+            'writes_outside_transaction': autocommitted[:3]}
 
 
 def freeze_program(ctx, template, base, serial, prog, info, runner_box):
@@ -808,13 +904,46 @@ def process_program(ctx, template, base, serial, prog, info, runner_box):
     if len(set(json.dumps(s, sort_keys=True) for s in info['states'])) != len(info['states']):
         ctx.count('programs_with_repeated_states')
 
+    # the boundary invariant already applies to the clean run: no data-modifying statement outside a transaction
+    ctx.count('dml_statements_checked_in_transaction', info['n_dml'])
+    if info['writes_outside_transaction']:
+        ctx.violation({'mode': 'clean', 'program': prog, 'statements': info['writes_outside_transaction'][:4]},
+                      mechanism='clean:write_outside_transaction')
+    for s in prog:
+        ctx.count('form.' + s.get('form', 'with'))
+        if s['ops'] and s['ops'][0][-1] == 'F': ctx.count('first_write_is_object_flush.%s.%s' % (s['mode'], s['ops'][0][0]))
+        for o in s['ops']:
+            if o[-1] == 'F': ctx.count('op.object_flush.' + o[0])
+
+    ncall, nret = info['n_call'], info['n_ret']
     # ---- error mode: plain sqlite3.OperationalError at every event, before and after the call ----
-    if not error_pass(ctx, template, workfile, serial, prog, info, runner_box, 'error', False, ('call', 'ret'), None):
+    plans = [(k, 'call', None, None) for k in range(1, ncall + 1)] + [(k, 'ret', None, None) for k in range(1, nret + 1)]
+    if not error_pass(ctx, template, workfile, serial, prog, info, runner_box, 'error', False, plans):
+        return info
+    # ---- interrupt mode: the process is told to stop -- SystemExit / KeyboardInterrupt / GeneratorExit (BaseExceptions
+    #      that are not Exceptions) surface inside a DB-API call, or between two operations of a session body ----
+    names = sorted(ABORTS)
+    plans = [(k, 'call', names[k % 3], None) for k in range(1, ncall + 1)]
+    if not error_pass(ctx, template, workfile, serial, prog, info, runner_box, 'interrupt', False, plans):
+        return info
+    plans, n = [], 0
+    for si, sess in enumerate(prog):
+        for pos in range(len(sess['ops']) + 1):
+            n += 1
+            plans.append((n, 'op', None, (si, pos, names[n % 3])))
+    if not error_pass(ctx, template, workfile, serial, prog, info, runner_box, 'abort', False, plans):
         return info
     # ---- reconnect sub-mode: "connection lost" before every call, provider answers should_reconnect() = True ----
     if RECONNECT_MODE:
-        error_pass(ctx, template, workfile, serial, prog, info, runner_box, 'reconnect', True, ('call',), ConnectionLost)
+        plans = [(k, 'call', 'ConnectionLost', None) for k in range(1, ncall + 1)]
+        error_pass(ctx, template, workfile, serial, prog, info, runner_box, 'reconnect', True, plans)
     return info
+
+
+def exc_class(name):
+    if name is None: return None
+    if name == 'ConnectionLost': return ConnectionLost
+    return ABORTS[name]
 
 
 FINDING_RECONNECT = 'C17-RECONNECT-MID-TRANSACTION'
@@ -836,8 +965,9 @@ def classify_error(label, res):
     return FINDING_RECONNECT
 
 
-def error_pass(ctx, template, workfile, serial, prog, info, runner_box, label, reconnecting, phases, exc):
-    """-> False if the pass had to be abandoned (watchdog)."""
+def error_pass(ctx, template, workfile, serial, prog, info, runner_box, label, reconnecting, plans):
+    """plans: list of (k, phase, exception name or None, abort or None), see error_case.
+    -> False if the pass had to be abandoned (watchdog)."""
     from vlib.faults import HookRecorder
     box = {}
     def rebuild():
@@ -848,10 +978,9 @@ def error_pass(ctx, template, workfile, serial, prog, info, runner_box, label, r
     env = {'template': template, 'workfile': workfile, 'marker': 0}
     env.update(rebuild())
     pfp = program_fp(prog)
-    for phase in phases:
-        n = info['n_call'] if phase == 'call' else info['n_ret']
-        for k in range(1, n + 1):
-            st, val = runner_box[0].call(lambda: error_case(env, prog, info, k, phase, exc), WATCHDOG,
+    if True:
+        for k, phase, excname, abort in plans:
+            st, val = runner_box[0].call(lambda: error_case(env, prog, info, k, phase, exc_class(excname), abort), WATCHDOG,
                                          progress=lambda: len(env['rec'].events))
             if st == 'hang':
                 ctx.count(label + '_mode_watchdog')
@@ -861,7 +990,7 @@ def error_pass(ctx, template, workfile, serial, prog, info, runner_box, label, r
             res = val
             if not res['fired']:
                 ctx.count(label + '_points_not_reached'); continue
-            ctx.case([label, pfp, k, phase], nontrivial=True,
+            ctx.case([label, pfp, k, phase, excname, abort], nontrivial=True,
                      sample={'mode': label, 'program': prog, 'k': k, 'phase': phase, 'fault_event': res.get('fault_event'),
                              'outcome': res.get('outcome'), 'session_error': res.get('error')} if k == 3 and phase == 'call' else None)
             ctx.count(label + '_points_judged')
@@ -873,7 +1002,8 @@ def error_pass(ctx, template, workfile, serial, prog, info, runner_box, label, r
                 ctx.count('reconnects_observed')
                 if rf['in_transaction_at_fault']: ctx.count('reconnects_inside_transaction')
             if res['problems']:
-                witness = {'mode': label, 'program': prog, 'k': k, 'phase': phase, 'fault_event': res.get('fault_event'),
+                witness = {'mode': label, 'program': prog, 'k': k, 'phase': phase, 'exc': excname, 'abort': abort,
+                           'fault_event': res.get('fault_event'),
                            'session_error': res.get('error'), 'reconnect': rf, 'problems': res['problems']}
                 fid = classify_error(label, res)
                 if fid:
@@ -932,6 +1062,8 @@ def judge_program_crashes(ctx, serial, prog, info, results, err, label='crash'):
             continue
         res = judge_crash_point(info, r)
         shutil.rmtree(r['dir'], ignore_errors=True)
+        if r.get('writes_outside_transaction'):
+            res['problems'].append({'problem': 'write_outside_transaction', 'statements': r['writes_outside_transaction']})
         ctx.case([label, pfp, r['k'], r['phase']], nontrivial=True,
                  sample={'mode': label, 'program': prog, 'k': r['k'], 'phase': r['phase'], 'acks': res.get('acks'),
                          'state_index': res.get('state_index'), 'hot_journal': res.get('hot_journal')}
@@ -968,7 +1100,7 @@ def run(ctx):
     template = build_template(os.path.join(base, 'template.sqlite'))
     # programs in total / of them also crashed as real processes / wall-clock budget of one real-crash driver
     if ctx.tier == 'quick': nprog, nreal, budget = 24, 3, 40.0
-    else: nprog, nreal, budget = 640, 64, 120.0
+    else: nprog, nreal, budget = 384, 48, 120.0
     serials = [i for i in range(nprog) if i % ctx.nshards == ctx.shard]
     real = set(i for i in range(nprog) if i < nreal)
     runner_box = [Runner('c17-error')]
@@ -1034,12 +1166,19 @@ def replay(ctx, witness):
     if 'error' in info:
         print('clean run fails:', info['error']); return
     mode = witness.get('mode')
-    if mode in ('error', 'reconnect'):
+    if mode == 'clean':
+        print(json.dumps(info['writes_outside_transaction'], indent=1))
+        if info['writes_outside_transaction']:
+            ctx.violation({'replayed': witness, 'statements': info['writes_outside_transaction'][:4]}, mechanism='clean')
+        return
+    if mode in ('error', 'reconnect', 'interrupt', 'abort'):
         rec = HookRecorder()
         restore(template, workfile)
         db, E = open_db(workfile, rec, mode == 'reconnect')
         env = {'rec': rec, 'db': db, 'E': E, 'template': template, 'workfile': workfile, 'marker': 0}
-        res = error_case(env, prog, info, witness['k'], witness['phase'], ConnectionLost if mode == 'reconnect' else None)
+        excname = witness.get('exc') or ('ConnectionLost' if mode == 'reconnect' else None)
+        abort = tuple(witness['abort']) if witness.get('abort') else None
+        res = error_case(env, prog, info, witness['k'], witness['phase'], exc_class(excname), abort)
         print(json.dumps(res, indent=1, default=repr)[:3000])
         if res['problems']: ctx.violation({'replayed': witness, 'problems': res['problems']}, mechanism=mode)
         return
